@@ -50,6 +50,22 @@ def _fixed_host_header(url: str) -> Dict[str, str]:
     return {}
 
 
+def _request_headers(
+    url: str,
+    http_headers: Mapping[str, str],
+    headers: Optional[Mapping[str, str]],
+) -> Dict[str, str]:
+    """Merge default and caller headers; a zone-stripped Host header wins."""
+    req_headers = {**http_headers, **(headers or {})}
+    fixed_host_header = _fixed_host_header(url)
+    if fixed_host_header:
+        req_headers = {
+            key: value for key, value in req_headers.items() if key.lower() != "host"
+        }
+        req_headers.update(fixed_host_header)
+    return req_headers
+
+
 class AiohttpRequester(UpnpRequester):
     """Standard AioHttpUpnpRequester, to be used with UpnpFactory."""
 
@@ -70,11 +86,7 @@ class AiohttpRequester(UpnpRequester):
         body: Optional[str] = None,
     ) -> Tuple[int, Mapping, str]:
         """Do a HTTP request."""
-        req_headers = {
-            **_fixed_host_header(url),
-            **self._http_headers,
-            **(headers or {}),
-        }
+        req_headers = _request_headers(url, self._http_headers, headers)
 
         log_traffic = _LOGGER_TRAFFIC_UPNP.isEnabledFor(logging.DEBUG)
         if log_traffic:  # pragma: no branch
@@ -186,11 +198,7 @@ class AiohttpSessionRequester(UpnpRequester):
     ) -> Tuple[int, Mapping[str, str], str]:
         """Do a HTTP request."""
         # pylint: disable=too-many-arguments
-        req_headers = {
-            **_fixed_host_header(url),
-            **self._http_headers,
-            **(headers or {}),
-        }
+        req_headers = _request_headers(url, self._http_headers, headers)
 
         log_traffic = _LOGGER_TRAFFIC_UPNP.isEnabledFor(logging.DEBUG)
         if log_traffic:  # pragma: no branch
